@@ -44,6 +44,7 @@ CONSTANTS
   MaxBranches,  \* branches per global transaction
   MaxDup,       \* extra deliveries of one phase-two request (duplication / coordinator retry)
   AllowTimeout, \* BOOLEAN: the coordinator may roll back a running transaction on its own (timeout)
+  MaxForeign,   \* writes by somebody outside any global transaction (no global lock consulted)
   \* obligations that can be switched off to see what breaks (all TRUE = the verified client)
   OblTruthful,       \* C04: the TM's decision follows the business outcome, and only one kind is sent
   OblLockCover,      \* C03: every written row is named in the registration
@@ -52,6 +53,7 @@ CONSTANTS
   OblFence           \* C06: confirm/cancel at most once and never both; empty rollback suspends
 
 NoG == 0
+Foreign == -1   \* content written by somebody outside any global transaction
 
 VARIABLES
   \* ---- coordinator
@@ -70,9 +72,10 @@ VARIABLES
   sent,       \* G -> set of decisions the TM has sent {"commit", "rollback"}
   \* ---- network: phase-two deliveries the coordinator has issued and the client has not processed yet
   net,        \* bag as set of [g, i, kind, n] with n the copy number
-  dups        \* duplications used so far
+  dups,       \* duplications used so far
+  nforeign    \* foreign writes so far
 
-vars == <<gst, branches, lock, val, undo, before, fence, eff, outcome, sent, net, dups>>
+vars == <<gst, branches, lock, val, undo, before, fence, eff, outcome, sent, net, dups, nforeign>>
 
 BIdx == 1..MaxBranches
 Slots == G \X BIdx
@@ -88,7 +91,7 @@ Init ==
   /\ eff = [s \in Slots |-> [try |-> 0, confirm |-> 0, cancel |-> 0]]
   /\ outcome = [g \in G |-> "none"]
   /\ sent = [g \in G |-> {}]
-  /\ net = {} /\ dups = 0
+  /\ net = {} /\ dups = 0 /\ nforeign = 0
 
 -----------------------------------------------------------------------------
 (* TM *)
@@ -96,14 +99,14 @@ Init ==
 Begin(g) ==
   /\ gst[g] = "none"
   /\ gst' = [gst EXCEPT ![g] = "begun"]
-  /\ UNCHANGED <<branches, lock, val, undo, before, fence, eff, outcome, sent, net, dups>>
+  /\ UNCHANGED <<branches, lock, val, undo, before, fence, eff, outcome, sent, net, dups, nforeign>>
 
 \* the business callback ends
 Business(g, o) ==
   /\ gst[g] \in {"begun", "rollbacking", "rollbacked"}   \* the TM does not know about a timeout rollback
   /\ outcome[g] = "none" /\ o \in {"nil", "err"}
   /\ outcome' = [outcome EXCEPT ![g] = o]
-  /\ UNCHANGED <<gst, branches, lock, val, undo, before, fence, eff, sent, net, dups>>
+  /\ UNCHANGED <<gst, branches, lock, val, undo, before, fence, eff, sent, net, dups, nforeign>>
 
 \* the TM sends its decision (C04: truthful, one kind only; retries of the same kind are idempotent here)
 Decide(g, d) ==
@@ -115,13 +118,13 @@ Decide(g, d) ==
   /\ gst' = [gst EXCEPT ![g] = IF gst[g] = "begun" THEN (IF d = "commit" THEN "committing" ELSE "rollbacking") ELSE @]
   \* global commit releases the global locks at once (AT)
   /\ lock' = IF gst[g] = "begun" /\ d = "commit" THEN [r \in Rows |-> IF lock[r] = g THEN NoG ELSE lock[r]] ELSE lock
-  /\ UNCHANGED <<branches, val, undo, before, fence, eff, outcome, net, dups>>
+  /\ UNCHANGED <<branches, val, undo, before, fence, eff, outcome, net, dups, nforeign>>
 
 \* the coordinator rolls a running transaction back on its own (global timeout)
 Timeout(g) ==
   /\ AllowTimeout /\ gst[g] = "begun"
   /\ gst' = [gst EXCEPT ![g] = "rollbacking"]
-  /\ UNCHANGED <<branches, lock, val, undo, before, fence, eff, outcome, sent, net, dups>>
+  /\ UNCHANGED <<branches, lock, val, undo, before, fence, eff, outcome, sent, net, dups, nforeign>>
 
 -----------------------------------------------------------------------------
 (* AT phase one (C02, C03): register (locks granted or refused) -> write rows + undo log in one local commit *)
@@ -143,7 +146,7 @@ ATBranch(g, rows, named) ==
           /\ undo' = [undo EXCEPT ![<<g, i>>] = "normal"]
      ELSE \* refused (lock conflict, or the transaction is no longer active): nothing is committed
           UNCHANGED <<branches, lock, before, val, undo>>
-  /\ UNCHANGED <<gst, fence, eff, outcome, sent, net, dups>>
+  /\ UNCHANGED <<gst, fence, eff, outcome, sent, net, dups, nforeign>>
 
 -----------------------------------------------------------------------------
 (* TCC phase one (C05): register, then try (fenced) *)
@@ -154,7 +157,7 @@ TCCBranch(g, a) ==
   /\ LET i == Len(branches[g]) + 1 IN
      /\ branches' = [branches EXCEPT ![g] = Append(@, [kind |-> "TCC", rows |-> {}, act |-> a, st |-> "registered"])]
      /\ UNCHANGED <<fence, eff>>
-  /\ UNCHANGED <<gst, lock, val, undo, before, outcome, sent, net, dups>>
+  /\ UNCHANGED <<gst, lock, val, undo, before, outcome, sent, net, dups, nforeign>>
 
 \* the try of a registered TCC branch runs (possibly late: after the coordinator already rolled the branch back)
 Try(g, i) ==
@@ -166,7 +169,7 @@ Try(g, i) ==
      ELSE \* anti-suspension: a suspended (or finished) branch refuses the late try
           IF OblFence THEN UNCHANGED <<fence, eff>>
           ELSE eff' = [eff EXCEPT ![<<g, i>>].try = 1] /\ UNCHANGED fence
-  /\ UNCHANGED <<gst, branches, lock, val, undo, before, outcome, sent, net, dups>>
+  /\ UNCHANGED <<gst, branches, lock, val, undo, before, outcome, sent, net, dups, nforeign>>
 
 -----------------------------------------------------------------------------
 (* the coordinator's phase two *)
@@ -181,20 +184,20 @@ Issue(g, i) ==
      /\ kind = "rollback" => \A j \in (i + 1)..Len(branches[g]) : branches[g][j].st = "rollbacked"
      /\ ~\E m \in net : m.g = g /\ m.i = i
      /\ net' = net \cup {[g |-> g, i |-> i, kind |-> kind, n |-> 0]}
-  /\ UNCHANGED <<gst, branches, lock, val, undo, before, fence, eff, outcome, sent, dups>>
+  /\ UNCHANGED <<gst, branches, lock, val, undo, before, fence, eff, outcome, sent, dups, nforeign>>
 
 \* the network duplicates a request in flight (or the coordinator retries before the answer arrives)
 Duplicate(m) ==
   /\ m \in net /\ dups < MaxDup
   /\ net' = net \cup {[m EXCEPT !.n = m.n + 1 + dups]}
   /\ dups' = dups + 1
-  /\ UNCHANGED <<gst, branches, lock, val, undo, before, fence, eff, outcome, sent>>
+  /\ UNCHANGED <<gst, branches, lock, val, undo, before, fence, eff, outcome, sent, nforeign>>
 
 \* the network loses a request (the coordinator will issue it again: Issue is enabled again)
 Lose(m) ==
   /\ m \in net
   /\ net' = net \ {m}
-  /\ UNCHANGED <<gst, branches, lock, val, undo, before, fence, eff, outcome, sent, dups>>
+  /\ UNCHANGED <<gst, branches, lock, val, undo, before, fence, eff, outcome, sent, dups, nforeign>>
 
 SetBranch(g, i, s) == [branches EXCEPT ![g][i].st = s]
 
@@ -204,7 +207,7 @@ ATCommit(m) ==
   /\ net' = net \ {m}
   /\ undo' = [undo EXCEPT ![<<m.g, m.i>>] = "none"]
   /\ branches' = SetBranch(m.g, m.i, "committed")
-  /\ UNCHANGED <<gst, lock, val, before, fence, eff, outcome, sent, dups>>
+  /\ UNCHANGED <<gst, lock, val, before, fence, eff, outcome, sent, dups, nforeign>>
 
 \* the client processes an AT branch rollback (C01, C09, C10)
 ATRollback(m) ==
@@ -228,7 +231,7 @@ ATRollback(m) ==
                ELSE val' = [r \in Rows |-> IF r \in rows THEN before[s][r] ELSE val[r]]   \* a non-idempotent undo
             /\ undo' = [undo EXCEPT ![s] = "marker"]
             /\ branches' = SetBranch(m.g, m.i, "rollbacked")
-  /\ UNCHANGED <<gst, lock, before, fence, eff, outcome, sent, dups>>
+  /\ UNCHANGED <<gst, lock, before, fence, eff, outcome, sent, dups, nforeign>>
 
 \* the client processes a TCC phase-two request through the fence (C05, C06)
 TCCPhaseTwo(m) ==
@@ -253,7 +256,14 @@ TCCPhaseTwo(m) ==
                        /\ UNCHANGED fence
                        /\ IF OblFence THEN UNCHANGED eff ELSE eff' = [eff EXCEPT ![s].cancel = @ + 1]
              /\ branches' = IF f # "committed" THEN SetBranch(m.g, m.i, "rollbacked") ELSE branches
-  /\ UNCHANGED <<gst, lock, val, undo, before, outcome, sent, dups>>
+  /\ UNCHANGED <<gst, lock, val, undo, before, outcome, sent, dups, nforeign>>
+
+\* somebody who does not take part in any global transaction commits a write (C09's foreign writer)
+ForeignWrite(r) ==
+  /\ nforeign < MaxForeign /\ val[r] # Foreign
+  /\ val' = [val EXCEPT ![r] = Foreign]
+  /\ nforeign' = nforeign + 1
+  /\ UNCHANGED <<gst, branches, lock, undo, before, fence, eff, outcome, sent, net, dups>>
 
 \* the coordinator closes the global transaction once every branch has answered
 Close(g) ==
@@ -263,7 +273,7 @@ Close(g) ==
      /\ gst' = [gst EXCEPT ![g] = done]
   \* global rollback releases the locks only now
   /\ lock' = [r \in Rows |-> IF lock[r] = g THEN NoG ELSE lock[r]]
-  /\ UNCHANGED <<branches, val, undo, before, fence, eff, outcome, sent, net, dups>>
+  /\ UNCHANGED <<branches, val, undo, before, fence, eff, outcome, sent, net, dups, nforeign>>
 
 Next ==
   \/ \E g \in G : Begin(g) \/ Timeout(g) \/ Close(g)
@@ -272,6 +282,7 @@ Next ==
   \/ \E g \in G, rows \in SUBSET Rows, named \in SUBSET Rows : ATBranch(g, rows, named)
   \/ \E g \in G, a \in Acts : TCCBranch(g, a)
   \/ \E g \in G, i \in BIdx : Try(g, i) \/ Issue(g, i)
+  \/ \E r \in Rows : ForeignWrite(r)
   \/ \E m \in net : Duplicate(m) \/ Lose(m) \/ ATCommit(m) \/ ATRollback(m) \/ TCCPhaseTwo(m)
 
 Spec == Init /\ [][Next]_vars
@@ -315,7 +326,7 @@ NoDirtyGlobalWrite ==
   \A g \in G, i \in BIdx :
     (i <= Len(branches[g]) /\ branches[g][i].kind = "AT" /\ undo[<<g, i>>] = "normal"
        /\ gst[g] \in {"begun", "rollbacking"})
-      => \A r \in branches[g][i].rows : val[r] = g \/ \E j \in (i + 1)..Len(branches[g]) : r \in branches[g][j].rows
+      => \A r \in branches[g][i].rows : val[r] \in {g, Foreign} \/ \E j \in (i + 1)..Len(branches[g]) : r \in branches[g][j].rows
 
 \* a rollback is never stuck on a dirty row: follows from NoDirtyGlobalWrite (checked as: whenever the
 \* coordinator is rolling back, the last not yet rolled back AT branch is restorable)
@@ -324,9 +335,13 @@ RollbackPossible ==
     \A i \in BIdx :
       (i <= Len(branches[g]) /\ branches[g][i].kind = "AT" /\ undo[<<g, i>>] = "normal"
         /\ \A j \in (i + 1)..Len(branches[g]) : branches[g][j].st = "rollbacked")
-      => \A r \in branches[g][i].rows : val[r] = g \/ val[r] = before[<<g, i>>][r]
+      => \A r \in branches[g][i].rows : val[r] \in {g, Foreign} \/ val[r] = before[<<g, i>>][r]
+
+\* a foreign write is never overwritten by a rollback (C09): checked as an action property
+ForeignSafe == [][\A r \in Rows : (val[r] = Foreign /\ val'[r] # Foreign) =>
+                    \E g \in G : val'[r] = g /\ gst'[g] \in {"begun"}]_vars
 
 TypeOK ==
   /\ gst \in [G -> {"none", "begun", "committing", "rollbacking", "committed", "rollbacked"}]
-  /\ lock \in [Rows -> G \cup {NoG}] /\ val \in [Rows -> G \cup {NoG}]
+  /\ lock \in [Rows -> G \cup {NoG}] /\ val \in [Rows -> G \cup {NoG, Foreign}]
 =============================================================================
